@@ -28,7 +28,7 @@ LEX = re.compile(
     r"""(?P<comment>\(\*.*?\*\))|(?P<string>'(?:\$.|[^'$])*'|"(?:\$.|[^"$])*")|(?P<address>%[IQMiqm](?:\*|[XBWDLxbwdl]?[0-9]+(?:\.[0-9]+)*))"""
     r"""|(?P<number>(?:16\#[0-9A-Fa-f_]+|8\#[0-7_]+|2\#[01_]+|[0-9][0-9_]*(?:\.[0-9_]+)?(?:[eE][+-]?[0-9_]+)?))"""
     r"""|(?P<word>[A-Za-z_][A-Za-z0-9_]*)|(?P<op>:=|=>|<>|<=|>=|\*\*|\.\.|[-+*/=<>&])|(?P<punct>[()\[\]{},;:.\#])"""
-    r"""|(?P<ws>[ \t\r\n]+)|(?P<bad>.)""", re.S)
+    r"""|(?P<ws>[ \t\r\n\f]+)|(?P<bad>.)""", re.S)
 
 
 def u16(s):
@@ -149,7 +149,7 @@ def judge(text, result):
 
 TRIVIA = [" ", "  ", "\t", "\n", "\r\n", " \n ", " (* c *) ", "(* c *)", " (* multi\nline *) ", "(* ( *)", "(*x*)(*y*)",
           " (* café ü *) ", "\n\t(* - *)\n", " (**) ", "(***)", " (* multi\r\nline *) ", "  (* a\r\n\r\n b é *) x"[:-2],
-          "(** doc **)", "(* x **)"]
+          "(** doc **)", "(* x **)", "\f", " \f ", "\f\n", "(* a\fb *)"]
 
 
 def make_doc(rng, bad01):
@@ -205,7 +205,11 @@ def shard(shard_i, nshards, payload):
                     kind = "truncated"
             if i % 7 == 3:
                 # planted invalid character: the answer must be null
+                # (anywhere; inside a string literal only where it does not follow a '$', since which characters may
+                # follow '$' is not what the property is about)
                 k = rng.randrange(len(text) + 1)
+                while k > 0 and text[k - 1] == "$":
+                    k -= 1
                 text = text[:k] + rng.choice(["?", "@", "!", "~", "\\", "`"]) + text[k:]
                 kind = "invalid-char"
             # an edit history before the request: stale texts must not show through
@@ -274,8 +278,8 @@ def run(tier, seed):
                 "didChange incl. two content changes) and with a planted invalid character in every 7th; result.data "
                 "decoded with the relative encoding and compared with an independent lexical classification; "
                 "distinct = distinct (atom set, document kind) whose answer decoded correctly",
-        "assumptions": ["length/character accepted in characters or UTF-16 code units; form feed is not generated "
-                        "(the property does not say whether it ends a line)",
+        "assumptions": ["length/character accepted in characters or UTF-16 code units; a form feed separates tokens but "
+                        "does not end a line (LSP lines end at LF, CRLF or CR)",
                         "legend entries allowed per class: identifier->variable; comment->comment; word keyword->"
                         "keyword|modifier|string; operators->operator|keyword; address->operator|variable"],
         "min_evaluations": 200,
